@@ -113,8 +113,10 @@ def check_config(c):
         res.check(dv <= 1e-9 * n0, 'pre.same', case, lambda: 'nswp=0 returns a tensor that differs from Y0 by relative %.3e' % (dv / n0), tags + ['pre'])
         if kw.get('I_vld') is not None:
             Iv, yv = kw['I_vld'], kw['y_vld']
-            ev0 = float(np.linalg.norm(ref.dense(Ypre)[tuple(np.asarray(Iv).T)] - yv) / np.linalg.norm(yv))
-            res.check(abs(ipre.get('e_vld') - ev0) <= 1e-6 * ev0 + 1e-9, 'info.e_vld.pre', case,
+            with np.errstate(all='ignore'):
+                ev0 = float(np.linalg.norm(ref.dense(Ypre)[tuple(np.asarray(Iv).T)] - yv) / np.linalg.norm(yv))
+            # validation values all zero: the relative error is undefined (0/0 or x/0), nothing is promised about it
+            res.check(not np.any(yv) or abs(ipre.get('e_vld') - ev0) <= 1e-6 * ev0 + 1e-9, 'info.e_vld.pre', case,
                       lambda: "nswp=0: info['e_vld']=%r, relative validation error of the returned tensor %r" % (ipre.get('e_vld'), ev0), tags)
         e1 = cbu.snaps[0]['info']['e']
         w1 = float(np.linalg.norm(ref.dense(cbu.snaps[0]['Y']) - D0)) / n0
@@ -190,14 +192,17 @@ def check_config(c):
                 if kw.get('I_vld') is not None:
                     Iv, yv = kw['I_vld'], kw['y_vld']
                     pred = ref.dense(Y)[tuple(np.asarray(Iv).T)]
-                    ev_ref = float(np.linalg.norm(pred - yv) / np.linalg.norm(yv))      # independent of accuracy_on_data / get_many
+                    with np.errstate(all='ignore'):
+                        ev_ref = float(np.linalg.norm(pred - yv) / np.linalg.norm(yv))      # independent of accuracy_on_data / get_many
+                    if not np.any(yv):
+                        ev_ref = None
                 else:
                     ev_ref = -1.0
             res.check(info.get('r') == er, 'info.r', dict(case, run=nm), lambda: "info['r']=%r, erank=%r" % (info.get('r'), er), tags)
             res.check(info.get('e') == e_ref or (np.isnan(info.get('e')) and np.isnan(e_ref)), 'info.e', dict(case, run=nm),
                       lambda: "info['e']=%r, accuracy(Y, Y_prev)=%r" % (info.get('e'), e_ref), tags)
             evg = info.get('e_vld')
-            res.check((ev_ref == -1.0 and evg == -1.0) or abs(evg - ev_ref) <= 1e-6 * max(ev_ref, 1e-300) + 1e-9, 'info.e_vld', dict(case, run=nm),
+            res.check(ev_ref is None or (ev_ref == -1.0 and evg == -1.0) or abs(evg - ev_ref) <= 1e-6 * max(ev_ref, 1e-300) + 1e-9, 'info.e_vld', dict(case, run=nm),
                       lambda: "info['e_vld']=%r, accuracy_on_data=%r" % (info.get('e_vld'), ev_ref), tags)
             res.check(info.get('nswp') == NS and info.get('stop') == 'nswp', 'info.nswp', dict(case, run=nm),
                       lambda: 'nswp=%r stop=%r' % (info.get('nswp'), info.get('stop')), tags)
@@ -210,8 +215,9 @@ def check_config(c):
                           lambda: "sweep %d: info['e']=%r vs %r" % (s + 1, sn['info']['e'], es), tags)
                 if kw.get('I_vld') is not None:
                     Iv, yv = kw['I_vld'], kw['y_vld']
-                    evs = float(np.linalg.norm(ref.dense(sn['Y'])[tuple(np.asarray(Iv).T)] - yv) / np.linalg.norm(yv))
-                    res.check(abs(sn['info']['e_vld'] - evs) <= 1e-6 * max(evs, 1e-300) + 1e-9, 'info.e_vld.sweep', dict(case, run=nm, sweep=s + 1),
+                    with np.errstate(all='ignore'):
+                        evs = float(np.linalg.norm(ref.dense(sn['Y'])[tuple(np.asarray(Iv).T)] - yv) / np.linalg.norm(yv))
+                    res.check(not np.any(yv) or abs(sn['info']['e_vld'] - evs) <= 1e-6 * max(evs, 1e-300) + 1e-9, 'info.e_vld.sweep', dict(case, run=nm, sweep=s + 1),
                               lambda: "sweep %d: info['e_vld']=%r, relative validation error of that sweep's tensor %r" % (s + 1, sn['info']['e_vld'], evs), tags)
                 prevY = (Ypre if s == 0 else cb.snaps[s - 1]['Y'])
                 res.check(ref.core_bytes(sn['Yold']) == ref.core_bytes(prevY), 'info.yold', dict(case, run=nm, sweep=s + 1),
